@@ -1,11 +1,360 @@
 package main
 
-import "verifharness/internal/vf"
+// C11 — task lifecycle is a consistent state machine with complete cleanup.
+//
+// A CDC child process runs on the supervisor's etcd, file message queue and two fake downstream Milvus servers.
+// The supervisor owns 2-3 source collections (kept ticking, one row per collection after every call) and plays
+// ONE sequential API client: generated sequences of <= 12 create / pause / resume / delete / get / list calls
+// over 2-3 tasks on 2 targets, legal and illegal (pause a paused task, resume a running one, operate on deleted
+// or never created ids, create with an existing task_id), two calls per sequence with a store failure at an
+// enumerated store call of the operation, a SIGKILL+restart in the middle of half of the sequences and one at
+// the end of every sequence, then everything is paused and deleted through the API.
+// See c11_exec.go for the oracles (A: five views against a sequential reference after every call; B: cleanup
+// at quiescent points; C: restart).
+
+import (
+	"fmt"
+	"math/rand"
+	"os"
+	"sort"
+	"strconv"
+	"sync"
+
+	"verifharness/internal/vf"
+)
+
+// store calls of one legal API operation as observed by the calibration sequence (fallback when it fails)
+var c11DefaultStoreCalls = map[string]int{"create": 5, "pause": 2, "resume": 3, "delete": 5, "get": 1, "list": 1}
+
+var c11Ops = []string{"create", "pause", "resume", "delete", "get", "list"}
+
+type c11Fault struct {
+	Op string
+	K  int
+}
+
+func c11FaultList(calls map[string]int) []c11Fault {
+	var l []c11Fault
+	for _, op := range c11Ops {
+		for k := 1; k <= calls[op]; k++ {
+			l = append(l, c11Fault{op, k})
+		}
+	}
+	return l
+}
+
+// c11Calibration: one fixed legal sequence without faults; it counts the store calls each operation makes.
+func c11Calibration() *c11Seq {
+	return &c11Seq{Idx: 0, NSrcP: 2,
+		Colls: []collDef{{DB: "default", Name: "c11_a", PChannels: []int{0, 1}}, {DB: "default", Name: "c11_b", PChannels: []int{1}}},
+		Slots: []c11Slot{{ID: "c11-0-t0", Target: 0, Coll: 0}, {ID: "c11-0-t1", Target: 1, Coll: 0, NoAuto: true}, {ID: "c11-0-t2", Target: 0, Coll: 1}},
+		Steps: []c11Step{{Op: "create", Slot: 0}, {Op: "create", Slot: 1}, {Op: "create", Slot: 2}, {Op: "get", Slot: 0}, {Op: "list", Slot: 0}, {Op: "pause", Slot: 0},
+			{Op: "pause", Slot: 0}, {Op: "resume", Slot: 0}, {Op: "resume", Slot: 0}, {Op: "pause", Slot: 2}, {Op: "delete", Slot: 0}, {Op: "pause", Slot: 0}},
+	}
+}
+
+func genC11Seq(seed int64, idx int, faults []c11Fault) *c11Seq {
+	rnd := vf.Rand(seed, "c11-seq", idx)
+	q := &c11Seq{Idx: idx, NSrcP: 2}
+	// collections: 2-3, each with 1-2 shards on the two source channels
+	nColl := 2 + rnd.Intn(2)
+	for ci := 0; ci < nColl; ci++ {
+		var ps []int
+		if rnd.Intn(2) == 0 {
+			ps = []int{rnd.Intn(2)}
+		} else {
+			ps = []int{0, 1}
+		}
+		q.Colls = append(q.Colls, collDef{DB: "default", Name: fmt.Sprintf("c11_%c", 'a'+ci), PChannels: ps})
+	}
+	// tasks: 2-3 (target, collection) pairs, all different; at least two share a target in most sequences
+	nSlot := 2 + rnd.Intn(2)
+	used := map[string]bool{}
+	for len(q.Slots) < nSlot {
+		t, c := rnd.Intn(2), rnd.Intn(nColl)
+		if len(q.Slots) == 1 && rnd.Intn(3) > 0 {
+			t = q.Slots[0].Target
+		}
+		k := fmt.Sprintf("%d/%d", t, c)
+		if used[k] {
+			continue
+		}
+		used[k] = true
+		q.Slots = append(q.Slots, c11Slot{ID: fmt.Sprintf("c11-%d-t%d", idx, len(q.Slots)), Target: t, Coll: c, NoAuto: rnd.Intn(3) == 0})
+	}
+	// two faults of the enumeration per sequence
+	var fl []c11Fault
+	if len(faults) > 0 {
+		fl = []c11Fault{faults[(2*idx)%len(faults)], faults[(2*idx+1)%len(faults)]}
+	}
+	gm := make([]string, nSlot) // generator's guess of the states (the executor's reference is authoritative)
+	for i := range gm {
+		gm[i] = c11Absent
+	}
+	apply := func(st c11Step) {
+		q.Steps = append(q.Steps, st)
+		if st.Slot < 0 || st.FailAt > 0 {
+			return
+		}
+		s := gm[st.Slot]
+		switch {
+		case st.Op == "create" && s == c11Absent:
+			gm[st.Slot] = c11Running
+		case st.Op == "pause" && s == c11Running:
+			gm[st.Slot] = c11Paused
+		case st.Op == "resume" && s == c11Paused:
+			gm[st.Slot] = c11Running
+		case st.Op == "delete":
+			gm[st.Slot] = c11Absent
+		}
+	}
+	find := func(state string) int {
+		var c []int
+		for i, s := range gm {
+			if s == state || (state == "existing" && s != c11Absent) {
+				c = append(c, i)
+			}
+		}
+		if len(c) == 0 {
+			return -1
+		}
+		return c[rnd.Intn(len(c))]
+	}
+	// force makes a legal call of op possible (at most two preparatory calls) and emits it with the fault
+	force := func(f c11Fault) {
+		need := map[string]string{"create": c11Absent, "pause": c11Running, "resume": c11Paused, "delete": "existing", "get": "existing", "list": "existing"}[f.Op]
+		for try := 0; try < 3; try++ {
+			if si := find(need); si >= 0 {
+				apply(c11Step{Op: f.Op, Slot: si, FailAt: f.K})
+				return
+			}
+			prep := c11Step{Slot: -1}
+			switch need {
+			case c11Absent:
+				prep = c11Step{Op: "delete", Slot: find("existing")}
+			case c11Running, "existing":
+				if si := find(c11Paused); si >= 0 && need == c11Running {
+					prep = c11Step{Op: "resume", Slot: si}
+				} else {
+					prep = c11Step{Op: "create", Slot: find(c11Absent)}
+				}
+			case c11Paused:
+				if si := find(c11Running); si >= 0 {
+					prep = c11Step{Op: "pause", Slot: si}
+				} else {
+					prep = c11Step{Op: "create", Slot: find(c11Absent)}
+				}
+			}
+			if prep.Slot < 0 {
+				return
+			}
+			apply(prep)
+		}
+	}
+	n := 9 + rnd.Intn(4)
+	f1, f2 := n/3, (2*n)/3+1
+	midRestart := -1
+	if rnd.Intn(2) == 0 {
+		midRestart = n / 2
+	}
+	calls := func() int {
+		c := 0
+		for _, st := range q.Steps {
+			if st.Op != "restart" {
+				c++
+			}
+		}
+		return c
+	}
+	pick := func(w map[string]int) string {
+		keys := make([]string, 0, len(w))
+		tot := 0
+		for k, v := range w {
+			keys = append(keys, k)
+			tot += v
+		}
+		sort.Strings(keys)
+		r := rnd.Intn(tot)
+		for _, k := range keys {
+			if r < w[k] {
+				return k
+			}
+			r -= w[k]
+		}
+		return keys[0]
+	}
+	restarted := false
+	for calls() < n {
+		c := calls()
+		if len(fl) > 0 && c >= f1 {
+			force(fl[0])
+			fl = fl[1:]
+			f1 = f2
+			if len(fl) == 0 {
+				f1 = 1 << 30
+			}
+			continue
+		}
+		if !restarted && midRestart >= 0 && c >= midRestart {
+			restarted = true
+			q.Steps = append(q.Steps, c11Step{Op: "restart"})
+			continue
+		}
+		if rnd.Intn(14) == 0 { // an id that never existed
+			apply(c11Step{Op: []string{"pause", "resume", "delete", "get"}[rnd.Intn(4)], Slot: -1})
+			continue
+		}
+		si := rnd.Intn(nSlot)
+		// the first calls build something up
+		if c < 2 && find("existing") < 0 {
+			apply(c11Step{Op: "create", Slot: si})
+			continue
+		}
+		var op string
+		switch gm[si] {
+		case c11Absent:
+			op = pick(map[string]int{"create": 60, "pause": 8, "resume": 8, "delete": 8, "get": 6, "list": 4})
+		case c11Running:
+			op = pick(map[string]int{"pause": 42, "delete": 14, "resume": 14, "create": 10, "get": 8, "list": 6})
+		default:
+			op = pick(map[string]int{"resume": 42, "delete": 14, "pause": 14, "create": 10, "get": 8, "list": 6})
+		}
+		apply(c11Step{Op: op, Slot: si})
+	}
+	if len(q.Steps) > 14 {
+		q.Steps = q.Steps[:14]
+	}
+	return q
+}
+
+var _ = rand.Int
 
 func runC11(tier string) *vf.Run {
-	run := vf.NewRun("C11", tier, "exploration")
-	run.Rule = "not built yet"
-	run.Inconclusive("check not built yet")
-	run.Floor("built", 1)
+	run := vf.NewRun("C11", tier, "fault_enumeration")
+	run.Rule = "case = one API sequence run by a single sequential client against a fresh CDC child process (embedded etcd, file message queue, 2 fake downstream servers, 2-3 source collections with 1-2 shards kept ticking, one row written per collection after every call): 9-12 calls (+ preparatory ones) over 2-3 tasks (distinct (target, collection) pairs, explicit task ids, disable_auto_start on a third of them) drawn from create/pause/resume/delete/get/list with ~1/3 illegal ones (wrong state, deleted id, never created id, create with an existing id); a calibration sequence counts the store calls of each operation, then every (operation, k-th store call) is enumerated cyclically, two per sequence: that call of that operation fails; a SIGKILL+restart in the middle of half of the sequences and at the end of each; finally everything is paused and deleted. After EVERY call: API get == API list == etcd record == in-memory table == gauge set, for all ids, == sequential reference (mismatch must persist over two samplings); per target refCnt / quit-function keys == running tasks; no checkpoint key of an absent task; consumer census rules; rows written while no running task covers (target, collection) are never acked there; after pause/delete with ticks stopped: /verif/busy. Non-trivial = the sequence ran to its end (or to a recorded divergence) without watchdog; distinct by the sequence text."
+	run.Assumptions = []string{
+		"single sequential client: a sequential reference model suffices; the service may pause a task on its own after an internal failure (reason 'fail…'): accepted as a legal Running->Paused when all five views agree",
+		"create with the id of an existing task is answered 200 with that id and no transition (idempotent retry in Create); the check demands only that nothing changes; create makes the task Running also with disable_auto_start (the flag is read by ReloadTask only)",
+		"restart expectation taken from the statement: Paused (with a reason) iff disable_auto_start, else Running — a task persisted as Paused without the flag comes back Running (ReloadTask calls startInternal for it); reported as a counter, not as a violation",
+		"store failures are injected before the call reaches etcd (a failed commit never reaches the store and the wrapper rolls the real transaction back); only calls of the API operation are counted: task_info calls of that id (or unfiltered), whole-task task_position get/delete, Txn and commit; checkpoint traffic of running tasks is not touched",
+		"consumer census: dispatcher consumers are named <client>-8444-<vchannel>-<main?>; one client pair per target; a solo consumer, and a shared (main) consumer of a client that never had a solo consumer on that channel, reads exactly the vchannel in its name: open ones are counted per vchannel against the targets that have a running task owning it; a shared consumer of a client that had solo consumers may be left open by the dispatcher library itself with nothing registered (milvus pkg msgdispatcher manager.Remove tests len(soloDispatchers) before removing the solo dispatcher of the vchannel being removed): third-party pool, only counted (census_open_shared_consumers_not_attributed); the library may block 5 s in a deregistration, so an offending set is judged only after it has been unchanged for 9 s (>= 11 s after the call); a census still changing after 60 s is inconclusive",
+		"busy work is judged only by the child's own cpu time and its own goroutine states with source ticks stopped, over three consecutive 300 ms windows; children run with GOMAXPROCS=4 so that a spinning goroutine cannot starve the machine; never by wall-clock slowness",
+		"goroutine count: baseline = fresh process without tasks, final = after the last restart, pausing and deleting everything; tolerance 60 (gRPC/etcd/dispatcher pools)",
+	}
+	// children inherit the environment: bound the damage a spinning goroutine can do to the (shared) machine
+	os.Setenv("GOMAXPROCS", "4")
+	gorTol := 60
+	var mu sync.Mutex
+	storeCalls := map[string]int{}
+	baseGor, finalGor := []int{}, []int{}
+	cpuRatios := []string{}
+	allNotes := []string{}
+	report := func(q *c11Seq, r *c11Result) {
+		run.Eval(1)
+		tag := fmt.Sprintf("[sequence %d] ", q.Idx)
+		if r.inconclusive != "" {
+			run.Inconclusive(tag + r.inconclusive)
+		}
+		for _, v := range r.vios {
+			run.Violate(v.key, v.desc, r.replay)
+		}
+		for k, n := range r.counts {
+			run.Count(k, n)
+		}
+		for set, vs := range r.distinct {
+			for _, v := range vs {
+				run.Distinct(set, v)
+			}
+		}
+		if r.decided {
+			run.Nontrivial(q.sig())
+			run.Count("sequences_decided", 1)
+		}
+		mu.Lock()
+		if r.gorBase > 0 {
+			baseGor = append(baseGor, r.gorBase)
+		}
+		if r.gorFinal > 0 {
+			finalGor = append(finalGor, r.gorFinal)
+		}
+		for _, nt := range r.notes {
+			if len(allNotes) < 12 {
+				allNotes = append(allNotes, tag+nt)
+			}
+		}
+		for _, b := range r.busy {
+			if b.WallMs > 0 && len(cpuRatios) < 400 {
+				cpuRatios = append(cpuRatios, fmt.Sprintf("%d/%d", b.CPUMs, b.WallMs))
+			}
+		}
+		mu.Unlock()
+		if q.Idx <= 2 {
+			run.Sample(map[string]any{"sequence": q, "trace": r.trace, "violations": len(r.vios), "inconclusive": r.inconclusive, "goroutines_fresh_process": r.gorBase, "goroutines_after_deleting_everything": r.gorFinal, "notes": r.notes})
+		}
+	}
+	only := -1
+	if v := os.Getenv("C11_ONLY"); v != "" {
+		only, _ = strconv.Atoi(v)
+	}
+	// calibration (sequence 0)
+	cal := c11Calibration()
+	cr := runC11Seq(cal, "c11-0", gorTol)
+	for op, n := range cr.storeCalls {
+		storeCalls[op] = n
+	}
+	for _, op := range c11Ops {
+		if storeCalls[op] == 0 {
+			storeCalls[op] = c11DefaultStoreCalls[op]
+			run.Count("calibration_fallback_"+op, 1)
+		}
+	}
+	report(cal, cr)
+	run.Extra("goroutines_left_after_deleting_everything_in_the_calibration_sequence_by_first_frame", cr.finalStacks)
+	run.Extra("store_calls_per_operation", storeCalls)
+	faults := c11FaultList(storeCalls)
+	run.Extra("enumerated_store_failure_points", len(faults))
+	n := run.Pick(30, 300)
+	var seqs []*c11Seq
+	for i := 1; i <= n; i++ {
+		if only >= 0 && i != only {
+			continue
+		}
+		seqs = append(seqs, genC11Seq(run.Seed, i, faults))
+	}
+	if only == 0 {
+		seqs = nil
+	}
+	parallel(len(seqs), 8, func(i int) {
+		q := seqs[i]
+		r := runC11Seq(q, fmt.Sprintf("c11-%d", q.Idx), gorTol)
+		report(q, r)
+	})
+	sort.Ints(baseGor)
+	sort.Ints(finalGor)
+	run.Extra("goroutines_fresh_process_sorted", baseGor)
+	run.Extra("goroutines_after_deleting_everything_sorted", finalGor)
+	run.Extra("busy_windows_cpu_ms_per_wall_ms", cpuRatios)
+	run.Extra("notes_first", allNotes)
+	// floors: about a third of what an unloaded run observes (quick: 31 sequences, thorough: 301)
+	q := run.Pick(1, 10)
+	run.Floor("sequences_decided", run.Pick(10, 100))
+	run.Floor("calls_legal", 95*q)
+	run.Floor("calls_illegal", 24*q)
+	run.Floor("transitions_attempted", 12)
+	run.Floor("store_failures_delivered", 17*q)
+	run.Floor("store_failure_points", 12)
+	for _, op := range c11Ops {
+		run.Floor("store_failures_in_"+op, run.Pick(1, 10))
+	}
+	run.Floor("restarts", 12*q)
+	run.Floor("restart_tasks_checked", 20*q)
+	run.Floor("restart_checkpoint_keys_checked", 35*q)
+	run.Floor("census_checks", 130*q)
+	run.Floor("busy_measurements", 40*q)
+	run.Floor("entity_checks", 250*q)
+	run.Floor("deletes_of_tasks_with_checkpoints", 18*q)
+	run.Floor("rows_written", 350*q)
+	run.Floor("rows_written_for_a_paused_task", 70*q)
+	run.Floor("row_acks_observed", 40*q)
 	return run
 }
